@@ -89,12 +89,15 @@ Next == /\ idx <= NL
         /\ inside' \in {inside, inside \cup {LatSeq[idx]}}
         /\ idx' = idx + 1 /\ UNCHANGED policy
 Spec == Init /\ [][Next]_vars
+\* generator: one oracle policy is enough to enumerate the inside sets
+GenInit == inside = {} /\ policy = "exact" /\ idx = 1
+GenSpec == GenInit /\ [][Next]_vars
 
 Done == idx > NL
 Correct == Done => \A p \in DOMAIN Image : (Image[p] = "in") = (p \in inside)
 WrittenOnce == Done => \A tx \in 0..(NX - 1), ty \in 0..(NY - 1) :
                  \A k \in DOMAIN EmptyBuf : RootTile(tx, ty)[1][k][2] = 1
 InBuffer == Done => \A tx \in 0..(NX - 1), ty \in 0..(NY - 1) : RootTile(tx, ty)[2]
-EmitBitmap == (Done /\ policy = "exact") =>
+EmitBitmap == (Done /\ policy = "exact" /\ inside \subseteq (0..(W - 1)) \X (0..(H - 1))) =>
    PrintT(<<"GEN", ToJson([w |-> W, h |-> H, rows |-> [y \in 1..H |-> [x \in 1..W |-> IF <<x - 1, y - 1>> \in inside THEN 1 ELSE 0]]])>>)
 ==============================================================================
